@@ -63,7 +63,7 @@ def wordlist_clause(chk):
     fails = []
     ident = {'dict': set(), 'wordlist': set()}
     model_bad = []
-    n = chk.n(400, 5000)
+    n = chk.n(1000, 5000)
     for it in range(n):
         d = wlgen.gen_wordlist(rng, with_tokens=False)
         klass = rng.choice([Wordlist, Wordlist, LexStat, Alignments])
@@ -147,7 +147,7 @@ def wordlist_clause(chk):
 def matrix_clause(chk):
     rng = chk.rng
     fails = []
-    n = chk.n(600, 8000)
+    n = chk.n(1800, 8000)
     taxa_all = ['T%d' % i for i in range(20)]
     for it in range(n):
         m, t = cl.gen_matrix(rng, maxn=7, exact=False)
